@@ -234,6 +234,34 @@ func (p *F) LinOf(v ssa.Value) Lin {
 			case fu && tu && tb >= fb:
 				return p.LinOf(x.X)
 			}
+			// a narrowing of a value that was widened from a type whose whole range fits the target: uint16(int(w)) with
+			// w a uint16 is w (every conversion on the way up kept the value)
+			cur := ssa.Value(x.X)
+			for i := 0; i < 4; i++ {
+				var inner ssa.Value
+				switch y := cur.(type) {
+				case *ssa.Convert:
+					inner = y.X
+				case *ssa.ChangeType:
+					inner = y.X
+				}
+				if inner == nil || !isInt(inner.Type()) || !isInt(cur.Type()) {
+					break
+				}
+				ib, iu := intBits(inner.Type())
+				cb, cu := intBits(cur.Type())
+				// inner -> cur must keep the value: widening with compatible signedness
+				keeps := (iu && cb > ib) || (iu && cu && cb >= ib) || (!iu && !cu && cb >= ib)
+				if !keeps {
+					break
+				}
+				// inner's range within the target's range
+				fits := (iu && tu && ib <= tb) || (iu && !tu && ib < tb) || (!iu && !tu && ib <= tb)
+				if fits {
+					return p.LinOf(inner)
+				}
+				cur = inner
+			}
 		}
 	case *ssa.ChangeType:
 		if isInt(x.Type()) {
